@@ -221,6 +221,18 @@ func (c *Ctx) checkSafeAdd(fn *ssa.Function) {
 	// the raw sum reaches a return only via the edge on which sum >= operand (no wrap)
 	ok := true
 	why := ""
+	noWrap := func(gs []an.Guard) bool {
+		for _, g := range gs {
+			f := an.FactOf(g)
+			if f.X == ssa.Value(sum) && (f.Y == a || f.Y == b) && f.Op == token.GEQ {
+				return true
+			}
+			if f.Y == ssa.Value(sum) && (f.X == a || f.X == b) && f.Op == token.LEQ {
+				return true
+			}
+		}
+		return false
+	}
 	var visit func(v ssa.Value, from *ssa.BasicBlock, seen map[ssa.Value]bool)
 	visit = func(v ssa.Value, from *ssa.BasicBlock, seen map[ssa.Value]bool) {
 		if seen[v] {
@@ -240,15 +252,7 @@ func (c *Ctx) checkSafeAdd(fn *ssa.Function) {
 							gs = append(gs, an.Guard{Cond: iff.Cond, Branch: pred.Succs[0] == x.Block(), If: iff})
 						}
 					}
-					for _, g := range gs {
-						f := an.FactOf(g)
-						if f.X == ssa.Value(sum) && (f.Y == a || f.Y == b) && f.Op == token.GEQ {
-							good = true
-						}
-						if f.Y == ssa.Value(sum) && (f.X == a || f.X == b) && f.Op == token.LEQ {
-							good = true
-						}
-					}
+					good = noWrap(gs)
 					if !good {
 						ok, why = false, "the raw sum flows to a return without passing the `sum >= operand` (no overflow) edge"
 					}
@@ -257,13 +261,14 @@ func (c *Ctx) checkSafeAdd(fn *ssa.Function) {
 				}
 			}
 		case *ssa.BinOp:
-			if x == sum {
+			// `return sum` itself: fine when the return sits on the no-overflow edge
+			if x == sum && (from == nil || !noWrap(an.BlockGuards(from))) {
 				ok, why = false, "the raw sum is returned directly, without an overflow test"
 			}
 		}
 	}
 	for _, r := range an.Returns(fn) {
-		visit(r.Results[0], nil, map[ssa.Value]bool{})
+		visit(r.Results[0], r.Block(), map[ssa.Value]bool{})
 	}
 	c.R.Check(ok, "safeAdd/no-wrap-edge", c.ipos(sum), "raw sum only returned on the sum >= operand edge, otherwise the saturation constant", why)
 }
